@@ -136,6 +136,14 @@ func (run *c18Run) verifyOld(indexed bool, stage string) error {
 		t := o.root
 		what := fmt.Sprintf("%s: long-lived state reader of state %d opened %s (canonical=%v, disk layer %d, history tail %d, rollbacks since opened %d)",
 			stage, t.id, o.openedAt, t.canonical, diskID, tail, run.epoch-o.epoch)
+		// a held reader whose state has dropped out of the retained window (id < history tail) must refuse EVERY read
+		if uint64(t.id) < tail {
+			if served := c18ServedReads(o.hr); served != "" {
+				return fmt.Errorf("%s: its state is no longer retained, yet the reader still serves %s", what, served)
+			}
+			run.r.Outcome(fmt.Sprintf("old-reader:refuses-all-reads-%d-below-tail", tail-uint64(t.id)))
+			continue
+		}
 		refused, wrong := c18ReadState(o.hr, t.world)
 		if wrong != nil {
 			if o.epoch != run.epoch {
@@ -261,6 +269,21 @@ func c18ReadState(hr *HistoricalStateReader, w *c17World) (error, error) {
 		}
 	}
 	return refused, nil
+}
+
+// c18ServedReads performs every read of the alphabet and names the first one that is answered without an error.
+func c18ServedReads(hr *HistoricalStateReader) string {
+	for i := 0; i <= c17NAcc; i++ {
+		if got, err := hr.AccountRLP(c17Addrs[i]); err == nil {
+			return fmt.Sprintf("account %d (= %x)", i, got)
+		}
+		for j := 0; j <= c17NSlot; j++ {
+			if got, err := hr.Storage(c17Addrs[i], c17SlotKeys[j]); err == nil {
+				return fmt.Sprintf("slot %d of account %d (= %x)", j, i, got)
+			}
+		}
+	}
+	return ""
 }
 
 // c18ReadTries walks the account trie and every storage trie of a historical state through HistoricNodeReader.
@@ -1014,6 +1037,33 @@ func TestVerif_C18(t *testing.T) {
 		r.Parallel(len(special), func(i int) {
 			c := special[i]
 			c18Both(r, c, true)
+		})
+		// long linear extensions under finite history limits: readers opened after every operation stay alive while the
+		// history tail passes their ids by 1, 2, ... (Commit after every transition)
+		var linear []c18Case
+		pattern := []string{"A+", "B+", "A.k0=1", "A.k0=2", "A.k1=1", "A+", "B.k0=1", "A.k0=0", "B+", "A!", "A-", "B-"}
+		for _, lim := range []uint64{2, 3} {
+			for _, buf := range []int{0, 1 << 20} {
+				for rot := 0; rot < len(pattern); rot += mc.Pick(r, 3, 1) {
+					var ops []string
+					w := c17World{}
+					for k := 0; len(ops) < 2*mc.Pick(r, 6, 7); k++ {
+						d := pattern[(rot+k)%len(pattern)]
+						nw, ok := c17Step(w, d, uint64(len(ops)/2+1))
+						if !ok {
+							continue
+						}
+						w = nw
+						ops = append(ops, d, c17Commit)
+					}
+					linear = append(linear, c18Case{Cfg: c17Cfg{Hist: lim, Buffer: buf, Trie: -1, Index: true}, Ops: ops, Rollback: -1})
+				}
+			}
+		}
+		r.Bound("long_linear_cases", len(linear))
+		r.Parallel(len(linear), func(i int) {
+			c18Both(r, linear[i], false)
+			r.DistinctHash(mc.Hash64(fmt.Sprint(linear[i])))
 		})
 		// a rollback while the background initer is still syncing (one dedicated scenario per configuration)
 		r.Parallel(len(cfgs), func(i int) {
